@@ -900,8 +900,9 @@ func ruleScopes(rule string) RuleFn {
 			an.Instrs(fn, func(in ssa.Instruction) {
 				if st, ok := in.(*ssa.Store); ok {
 					a, v := an.Norm(st.Addr), an.Norm(st.Val)
-					m1 := regexp.MustCompile(`^&makeslice:t\d+\[\((φt\d+) \+ 1\)\]$`).FindStringSubmatch(a)
-					m2 := regexp.MustCompile(`^iface\(p:s\.ancestors\(\)\[\((φt\d+) \+ 1\)\]\)$`).FindStringSubmatch(v)
+					// same loop index on both sides (range form: (φ + 1), index form: φ)
+					m1 := regexp.MustCompile(`^&makeslice:t\d+\[(\(φt\d+ \+ 1\)|φt\d+)\]$`).FindStringSubmatch(a)
+					m2 := regexp.MustCompile(`^iface\(p:s\.ancestors\(\)\[(\(φt\d+ \+ 1\)|φt\d+)\]\)$`).FindStringSubmatch(v)
 					if m1 != nil && m2 != nil && m1[1] == m2[1] {
 						good = true
 					}
@@ -1138,10 +1139,10 @@ func ruleOrderFree(rule string) RuleFn {
 				if nm == "(*dig.Scope).String" || nm == "(*dig.Scope).knownTypes" {
 					continue
 				}
-				c.Check(allowedProv[nm], rule, "Provide path reads Scope.providers in "+nm, "duplicate check / cycle detection", "registration inspects existing providers in "+nm+": whether a Provide is accepted may depend on registration order", rd, nil)
+				c.Check(allowedProv[nm] || isScopeAccessor(nm, "Providers"), rule, "Provide path reads Scope.providers in "+nm, "duplicate check / cycle detection", "registration inspects existing providers in "+nm+": whether a Provide is accepted may depend on registration order", rd, nil)
 			}
 			for _, rd := range readsScopeField(f, "decorators") {
-				if nm == "(*dig.Scope).getDecorators" {
+				if isScopeAccessor(nm, "Decorator") {
 					continue
 				}
 				c.Bad(rule, "Provide path does not read Scope.decorators ("+nm+")", "Provide looks at registered decorators: the order of Provide and Decorate calls matters", rd, nil)
@@ -1167,8 +1168,21 @@ func ruleOrderFree(rule string) RuleFn {
 		for _, f := range c.P.Funcs {
 			nm := an.ShortName(f)
 			for _, rd := range readsScopeField(f, "decorators") {
-				c.Check(nm == "(*dig.Scope).getDecorators" || nm == "(*dig.Scope).Decorate", rule, "Scope.decorators read in "+nm, "lookup at resolution time / duplicate check", "unexpected reader of Scope.decorators", rd, nil)
+				c.Check(isScopeAccessor(nm, "Decorator") || nm == "(*dig.Scope).Decorate", rule, "Scope.decorators read in "+nm, "lookup at resolution time / duplicate check", "unexpected reader of Scope.decorators", rd, nil)
 			}
 		}
 	}
+}
+
+// isScopeAccessor: the lookup accessors of *Scope for one registration map
+// (getProviders, getValueProviders, getGroupProviders, getAll...Providers;
+// getDecorators, getValueDecorator, getGroupDecorator). Whether the shared
+// helper exists or was inlined into the typed accessors is not a role.
+func isScopeAccessor(short, what string) bool {
+	const pre = "(*dig.Scope).get"
+	if !strings.HasPrefix(short, pre) {
+		return false
+	}
+	rest := short[len(pre):]
+	return strings.HasSuffix(rest, what) || strings.HasSuffix(rest, what+"s")
 }
